@@ -624,6 +624,32 @@ func (c *Collection) FindOne(ctx context.Context, filter interface{}, opts ...*o
 	return &SingleResult{doc: list[0]}
 }
 
+// selectAndProject returns the document a find-one-and-modify call yields and
+// applies the projection. It is called inside the transaction so that a failing
+// projection aborts the write instead of reporting an error for a write that
+// took effect.
+func selectAndProject(result *Result, returnAfter bool, projection bsonkit.Doc) (bsonkit.Doc, error) {
+	// get doc
+	var doc bsonkit.Doc
+	if result.Upserted != nil {
+		if returnAfter {
+			doc = result.Upserted
+		}
+	} else if len(result.Matched) > 0 {
+		doc = result.Matched[0]
+		if returnAfter && len(result.Modified) > 0 {
+			doc = result.Modified[0]
+		}
+	}
+
+	// apply projection
+	if doc != nil && projection != nil {
+		return mongokit.Project(doc, projection)
+	}
+
+	return doc, nil
+}
+
 // FindOneAndDelete implements the ICollection.FindOneAndDelete method.
 func (c *Collection) FindOneAndDelete(ctx context.Context, filter interface{}, opts ...*options.FindOneAndDeleteOptions) ISingleResult {
 	// merge options
@@ -667,31 +693,39 @@ func (c *Collection) FindOneAndDelete(ctx context.Context, filter interface{}, o
 		}
 	}
 
-	// delete documents
+	// delete documents and project the result inside the transaction, so
+	// that a failing projection aborts the write instead of reporting an
+	// error for a delete that took effect
 	res, err := useTransaction(ctx, c.engine, true, func(txn *Transaction) (interface{}, error) {
-		return txn.Delete(c.handle, query, sort, 0, 1)
+		// delete document
+		res, err := txn.Delete(c.handle, query, sort, 0, 1)
+		if err != nil {
+			return nil, err
+		}
+
+		// get list
+		list := res.Matched
+
+		// check list
+		if len(list) == 0 {
+			return bsonkit.Doc(nil), nil
+		}
+
+		// apply projection
+		if projection != nil {
+			list, err = mongokit.ProjectList(list, projection)
+			if err != nil {
+				return nil, err
+			}
+		}
+
+		return list[0], nil
 	})
 	if err != nil {
 		return &SingleResult{err: err}
 	}
 
-	// get list
-	list := res.(*Result).Matched
-
-	// check list
-	if len(list) == 0 {
-		return &SingleResult{}
-	}
-
-	// apply projection
-	if projection != nil {
-		list, err = mongokit.ProjectList(list, projection)
-		if err != nil {
-			return &SingleResult{err: err}
-		}
-	}
-
-	return &SingleResult{doc: list[0]}
+	return &SingleResult{doc: res.(bsonkit.Doc)}
 }
 
 // FindOneAndReplace implements the ICollection.FindOneAndReplace method.
@@ -769,37 +803,17 @@ func (c *Collection) FindOneAndReplace(ctx context.Context, filter, replacement 
 
 	// insert document
 	res, err := useTransaction(ctx, c.engine, true, func(txn *Transaction) (interface{}, error) {
-		return txn.Replace(c.handle, query, sort, repl, upsert)
+		result, err := txn.Replace(c.handle, query, sort, repl, upsert)
+		if err != nil {
+			return nil, err
+		}
+		return selectAndProject(result, returnAfter, projection)
 	})
 	if err != nil {
 		return &SingleResult{err: err}
 	}
 
-	// get result
-	result := res.(*Result)
-
-	// get doc
-	var doc bsonkit.Doc
-	if result.Upserted != nil {
-		if returnAfter {
-			doc = result.Upserted
-		}
-	} else if len(result.Matched) > 0 {
-		doc = result.Matched[0]
-		if returnAfter && len(result.Modified) > 0 {
-			doc = result.Modified[0]
-		}
-	}
-
-	// apply projection
-	if doc != nil && projection != nil {
-		doc, err = mongokit.Project(doc, projection)
-		if err != nil {
-			return &SingleResult{err: err}
-		}
-	}
-
-	return &SingleResult{doc: doc}
+	return &SingleResult{doc: res.(bsonkit.Doc)}
 }
 
 // FindOneAndUpdate implements the ICollection.FindOneAndUpdate method.
@@ -882,37 +896,17 @@ func (c *Collection) FindOneAndUpdate(ctx context.Context, filter, update interf
 
 	// update documents
 	res, err := useTransaction(ctx, c.engine, true, func(txn *Transaction) (interface{}, error) {
-		return txn.Update(c.handle, query, sort, upd, 0, 1, upsert, arrayFilters)
+		result, err := txn.Update(c.handle, query, sort, upd, 0, 1, upsert, arrayFilters)
+		if err != nil {
+			return nil, err
+		}
+		return selectAndProject(result, returnAfter, projection)
 	})
 	if err != nil {
 		return &SingleResult{err: err}
 	}
 
-	// get result
-	result := res.(*Result)
-
-	// get doc
-	var doc bsonkit.Doc
-	if result.Upserted != nil {
-		if returnAfter {
-			doc = result.Upserted
-		}
-	} else if len(result.Matched) > 0 {
-		doc = result.Matched[0]
-		if returnAfter && len(result.Modified) > 0 {
-			doc = result.Modified[0]
-		}
-	}
-
-	// apply projection
-	if doc != nil && projection != nil {
-		doc, err = mongokit.Project(doc, projection)
-		if err != nil {
-			return &SingleResult{err: err}
-		}
-	}
-
-	return &SingleResult{doc: doc}
+	return &SingleResult{doc: res.(bsonkit.Doc)}
 }
 
 // Indexes implements the ICollection.Indexes method.
